@@ -1,0 +1,50 @@
+//go:build verif
+
+package taint
+
+import (
+	"github.com/awslabs/ar-go-tools/analysis/config"
+	"github.com/awslabs/ar-go-tools/analysis/dataflow"
+	"github.com/awslabs/ar-go-tools/internal/analysisutil"
+	"golang.org/x/tools/go/ssa"
+)
+
+// Re-exports for the verification harness (property C04). Add-only, compiled only with -tags verif.
+
+// VerifIsEntrypointNode re-exports internal/analysisutil.IsEntrypointNode. withPointer selects whether the
+// pointer analysis result of the state is passed (as the taint and backtrace analyses do) or nil.
+func VerifIsEntrypointNode(state *dataflow.AnalyzerState, withPointer bool, n ssa.Node,
+	f func(config.CodeIdentifier) bool) bool {
+	if withPointer {
+		return analysisutil.IsEntrypointNode(state.PointerAnalysis, n, f)
+	}
+	return analysisutil.IsEntrypointNode(nil, n, f)
+}
+
+// VerifIsMatchingCodeID re-exports isMatchingCodeID (test on dataflow graph nodes).
+func VerifIsMatchingCodeID(codeIDOracle func(config.CodeIdentifier) bool, n dataflow.GraphNode) bool {
+	return isMatchingCodeID(codeIDOracle, n)
+}
+
+// VerifIsSink re-exports isSink.
+func VerifIsSink(state *dataflow.AnalyzerState, ts *config.TaintSpec, n dataflow.GraphNode) bool {
+	return isSink(state, ts, n)
+}
+
+// VerifIsSanitizer re-exports isSanitizer.
+func VerifIsSanitizer(state *dataflow.AnalyzerState, ts *config.TaintSpec, n dataflow.GraphNode) bool {
+	return isSanitizer(state, ts, n)
+}
+
+// VerifIsValidatorCondition re-exports isValidatorCondition.
+func VerifIsValidatorCondition(ts *config.TaintSpec, v ssa.Value, isPositive bool) bool {
+	return isValidatorCondition(ts, v, isPositive)
+}
+
+// VerifPopulateConfigInterfaces re-exports populateConfigInterfaces (interface sinks expanded to implementations).
+func VerifPopulateConfigInterfaces(s *dataflow.AnalyzerState) { populateConfigInterfaces(s) }
+
+// VerifFindEltTypePackage re-exports internal/analysisutil.FindEltTypePackage with the "%s" pre-format.
+func VerifFindEltTypePackage(n ssa.Value) (string, string, error) {
+	return analysisutil.FindEltTypePackage(n.Type(), "%s")
+}
